@@ -181,6 +181,13 @@ func parent(ck *checks.Check, tier string, seed int64, verif, scratch string) in
 						Msg: "the Go runtime aborted the process (fatal error: concurrent map access) with library code on the stack: " + frame}, Index: w, Detail: msg})
 					return
 				}
+				if frame := libraryPanicFrame(string(tail)); frame != "" {
+					// an unrecovered panic on a goroutine the library started itself (net/http recovers handler
+					// panics only): the whole process — every other client's server — is gone
+					total.Violations = append(total.Violations, sim.VioRec{Violation: sim.Violation{Prop: ck.ID, Sig: ck.ID + "|process-crash|panic-in-library-goroutine|" + frame,
+						Msg: "an unrecovered panic whose innermost non-runtime frame is library code ended the process: " + frame}, Index: w, Detail: msg})
+					return
+				}
 				why := fmt.Sprintf("worker %d produced no result (%v)", w, err)
 				if ctx.Err() != nil {
 					why = fmt.Sprintf("worker %d hit the wall-clock watchdog (%s)", w, limit)
@@ -408,4 +415,38 @@ func doReplay(ck *checks.Check, file, verif, scratch string) int {
 	}
 	fmt.Printf("replay of %s unit %d: no violation (%d evaluations)\n", ck.ID, rp.Unit, st.Evaluations)
 	return 0
+}
+
+// libraryPanicFrame inspects a crashed worker's output: if the process died of a Go panic and the innermost
+// frame of the panicking goroutine that is neither runtime nor panic machinery belongs to the library, that
+// frame is returned ("" otherwise: a panic that originates in harness code is the harness' problem).
+func libraryPanicFrame(out string) string {
+	i := strings.Index(out, "\npanic: ")
+	if i < 0 && !strings.HasPrefix(out, "panic: ") {
+		return ""
+	}
+	if i < 0 {
+		i = 0
+	}
+	rest := out[i:]
+	j := strings.Index(rest, "\ngoroutine ")
+	if j < 0 {
+		return ""
+	}
+	for _, ln := range strings.Split(rest[j+1:], "\n")[1:] {
+		if ln == "" {
+			break
+		}
+		if strings.HasPrefix(ln, "\t") || strings.HasPrefix(ln, "panic(") || strings.HasPrefix(ln, "runtime.") || strings.HasPrefix(ln, "created by") {
+			continue
+		}
+		if strings.HasPrefix(ln, "github.com/volatiletech/authboss/v3") {
+			if k := strings.LastIndex(ln, "("); k > 0 {
+				return ln[:k]
+			}
+			return ln
+		}
+		return ""
+	}
+	return ""
 }
